@@ -24,7 +24,8 @@ from .. import core
 from .. import draw_common as dc
 from .. import hyp_common as hc
 
-SCENE_INVARIANTS = ["VerticesArePoints", "CoordsAgree", "EdgesAreGeodesics", "Equivariant", "HorospheresAreCircles", "EmitScene"]
+SCENE_INVARIANTS = ["VerticesArePoints", "CoordsAgree", "EdgesAreGeodesics", "Equivariant", "HorospheresAreCircles", "VerticalsAreGeodesics",
+                    "EmitScene"]
 
 
 def lib_threshold():
@@ -82,7 +83,7 @@ class Recorder:
         geom = scene["geom"][model]
         evs = dc.outline_events(model, geom, closed, outline[1], outline[2])
         self.traces.append(dict(model=model, word=scene["word"], verts=scene["verts"], closed=closed, events=evs))
-        self.meta.append(dict(what=what, artist=outline[0]))
+        self.meta.append(dict(what=what, artist=outline[0], expect=["arc" if e["kind"] == "arc" else "straight" for e in geom["edges"]]))
         for e in geom["edges"]:
             self.kinds[(model, e["kind"])] = self.kinds.get((model, e["kind"]), 0) + 1
 
@@ -199,6 +200,34 @@ def check_horosphere(run, d, model, scene):
         run.violation(key, "horosphere.circle", dict(model=model, word=scene["word"], centre=scene["verts"][0], through=scene["verts"][1], spec=h, observed=bad))
 
 
+def check_vline(run, d, scene):
+    """half-plane geodesic with one end at infinity: the vertical half-line over the other end"""
+    H = hc.H()
+    x = dc.rat(scene["vline"]["x"])
+    key = "vertical:halfplane:%s" % json.dumps(scene["verts"], separators=(",", ":"))
+    run.case(key=("vline", json.dumps(scene["verts"])), action="draw_geodesic[to infinity]")
+    try:
+        d.draw_geodesic(H.Geodesic(arr(scene["verts"][0]), arr(scene["verts"][1])))
+        outs = artists_outlines(d)
+        bad = None
+        if len(outs) != 1:
+            bad = "expected one outline, found %d" % len(outs)
+        else:
+            pcs = dc.cut_path(outs[0][1], outs[0][2])
+            if [p[0] for p in pcs] != ["move", "line"]:
+                bad = "expected one straight stroke, found %r" % [p[0] for p in pcs]
+            else:
+                a, b = pcs[1][1], pcs[1][2]
+                lo, hi = (a, b) if a[1] <= b[1] else (b, a)
+                if abs(a[0] - x) > 1e-6 * max(1.0, abs(x)) or abs(b[0] - x) > 1e-6 * max(1.0, abs(x)) or abs(lo[1]) > 1e-6 or hi[1] < d.ylim[1]:
+                    bad = "stroke from %r to %r; spec: x = %r from the boundary to beyond y = %r" % (a.tolist(), b.tolist(), x, d.ylim[1])
+    except Exception as ex:
+        bad = "%s: %s" % (type(ex).__name__, ex)
+    dc.clear(d)
+    if bad:
+        run.violation(key, "geodesic.vertical_to_infinity", dict(ends=scene["verts"], spec_x=scene["vline"]["x"], observed=bad))
+
+
 def replay_scenes(run, rec, scs, rng, point_rate=1.0, batch=40):
     """draw every scene in every model where it is in the domain"""
     groups = {}
@@ -234,8 +263,162 @@ def replay_scenes(run, rec, scs, rng, point_rate=1.0, batch=40):
             for s in grp:
                 if s["horo"][model]["ok"]:
                     check_horosphere(run, d, model, s)
+                if model == "halfplane" and s["vline"]["ok"]:
+                    check_vline(run, d, s)
             dc.close(d)
-    run.nontrivial_count += 0
+
+
+# ----------------------------------------------------------------------------------------
+# projective drawings
+# ----------------------------------------------------------------------------------------
+def proj_scenes(run, name, BP, maxverts, simulate=None, depth=None):
+    c = core.cfg(constants=dict(BP=BP, MaxVertsP=maxverts),
+                 invariants=["RoundTrip", "Transition", "Collinear", "Invertible", "LinesToLines", "EmitProj"])
+    r = run.tlc("draw/DrawProj.tla", c, name=name, workers=4, simulate=simulate, depth=depth)
+    dims = None
+    for line in r.stdout.splitlines():
+        if line.startswith('"DIMS '):
+            dims = json.loads(json.loads(line)[5:])
+    if dims is None:
+        raise core.MachineryFailure("no DIMS table")
+    seen, out = set(), []
+    for e in r.emits:
+        k = json.dumps([e["chart"], e["M"], e["verts"]])
+        if k not in seen:
+            seen.add(k)
+            out.append(e)
+    return out, dims
+
+
+def replay_proj(run, rec, scs, rng):
+    from geometry_tools import projective as P
+    D = dc.drawtools()
+    groups = {}
+    for s in scs:
+        groups.setdefault((s["chart"], json.dumps(s["M"])), []).append(s)
+    for (chart, mk) in sorted(groups):
+        grp = groups[(chart, mk)]
+        M = grp[0]["M"]
+        try:
+            T = P.Transformation(arr(M), column_vectors=True)
+            d = D.ProjectiveDrawing(transform=T, chart_index=chart)
+        except Exception as ex:
+            run.violation("projdrawing:%d:%s" % (chart, mk), "raised:drawing", dict(chart=chart, M=M, error="%s: %s" % (type(ex).__name__, ex)))
+            continue
+        for s in grp:
+            n = len(s["verts"])
+            want = np.array([dc.rat2(c) for c in s["aff"]])
+            geom = dict(vc=s["aff"], edges=[dict(kind="line")] * n)
+            key = "proj:%d:%s:%s" % (chart, mk, json.dumps(s["verts"], separators=(",", ":")))
+            data = arr(s["verts"])
+            # points
+            try:
+                dc.plt().sca(d.ax)
+                d.draw_point(P.Point(data if n > 1 else data[0]))
+                got = [np.asarray(l.get_xydata(), float) for l in d.ax.lines]
+                got = np.vstack(got) if got else np.zeros((0, 2))
+                bad = None
+                if got.shape != want.shape:
+                    bad = "expected %d marker positions, found %d" % (len(want), len(got))
+                else:
+                    used = set()
+                    for i, w in enumerate(want):
+                        dd = np.abs(got - w).max(axis=1)
+                        for j in used:
+                            dd[j] = np.inf
+                        j = int(np.argmin(dd))
+                        if not dd[j] <= 1e-9 * max(1.0, float(np.abs(w).max())):
+                            bad = "vector %r: expected at %r, nearest marker %r" % (s["verts"][i], w.tolist(), got[j].tolist())
+                            break
+                        used.add(j)
+            except Exception as ex:
+                bad = "%s: %s" % (type(ex).__name__, ex)
+            dc.clear(d)
+            run.case(key=("projpoint", key), action="proj.draw_point[chart %d]" % chart)
+            if bad:
+                run.violation(key + ":point", "projective.point_at_chart_coordinates", dict(chart=chart, M=M, vectors=s["verts"], spec=want.tolist(), observed=bad))
+            if n < 2:
+                continue
+            what = "proj_polygon" if n >= 3 else "proj_segment"
+            try:
+                if n >= 3:
+                    d.draw_polygon(P.Polygon(data))
+                else:
+                    d.draw_proj_segment(P.PointPair(data))
+                outs = artists_outlines(d)
+            except Exception as ex:
+                run.violation(key + ":raised", "raised:" + what, dict(chart=chart, M=M, vectors=s["verts"], error="%s: %s" % (type(ex).__name__, ex)))
+                dc.clear(d)
+                continue
+            dc.clear(d)
+            run.case(key=(what, key), action="%s[chart %d]" % (what, chart))
+            if len(outs) != 1:
+                run.violation(key + ":count", "artist.one_outline_per_object", dict(chart=chart, M=M, vectors=s["verts"], outlines=len(outs)))
+                continue
+            evs = dc.outline_events("affine", geom, n >= 3, outs[0][1], outs[0][2])
+            rec.traces.append(dict(model="affine", word=[], verts=s["verts"], closed=n >= 3, events=evs))
+            rec.meta.append(dict(what=what, artist=outs[0][0], chart=chart, M=M, spec_affine=want.tolist(), expect=["straight"] * n))
+        dc.close(d)
+
+
+def wrong_dimension(run, dims):
+    """objects whose dimension is not the drawing's are rejected (GeometryError) and nothing is added to the axes"""
+    H = hc.H()
+    D = dc.drawtools()
+    from geometry_tools import projective as P
+    from geometry_tools import GeometryError
+
+    def hyp_objects(dim):
+        o = np.zeros(dim + 1); o[0] = 1.0
+        a = o.copy(); a[1] = 0.5
+        b = o.copy(); b[1] = -0.25
+        c = o.copy(); c[-1] = 0.5
+        xi = np.zeros(dim + 1); xi[0] = xi[1] = 1.0
+        eta = np.zeros(dim + 1); eta[0] = 1.0; eta[1] = -1.0
+        return [("draw_point", lambda: H.Point(a)), ("draw_geodesic", lambda: H.Segment(a, b)), ("draw_geodesic", lambda: H.Geodesic(xi, eta)),
+                ("draw_polygon", lambda: H.Polygon(np.array([a, b, c]))), ("draw_horosphere", lambda: H.Horosphere(xi, a))]
+
+    def proj_objects(dim):
+        a = np.arange(1.0, dim + 2)
+        b = np.ones(dim + 1); b[1] = -2
+        c = np.ones(dim + 1); c[-1] = 3
+        return [("draw_point", lambda: P.Point(a)), ("draw_proj_segment", lambda: P.PointPair(np.array([a, b]))),
+                ("draw_polygon", lambda: P.Polygon(np.array([a, b, c])))]
+
+    drawings = [("HyperbolicDrawing[%s]" % m, (lambda m=m: D.HyperbolicDrawing(model=m)), hyp_objects) for m in dc.MODELS]
+    drawings.append(("ProjectiveDrawing", lambda: D.ProjectiveDrawing(), proj_objects))
+    for name, mk, objs in drawings:
+        d = mk()
+        for dim in (1, 2, 3):
+            rejected = dims[dim - 1]
+            for meth, build in objs(dim):
+                if meth == "draw_horosphere" and "klein" in name:
+                    continue
+                key = "dimension:%s:%s:%d" % (name, meth, dim)
+                run.case(key=key, action="dimension")
+                dc.plt().sca(d.ax)
+                try:
+                    obj = build()
+                    cls = type(obj).__name__
+                except Exception as ex:
+                    if rejected:
+                        continue              # the object itself cannot be built in this dimension: nothing to draw
+                    run.violation(key + ":build", "raised:constructor", dict(drawing=name, method=meth, dimension=dim, error="%s: %s" % (type(ex).__name__, ex)))
+                    continue
+                try:
+                    getattr(d, meth)(obj)
+                    raised = None
+                except GeometryError:
+                    raised = "GeometryError"
+                except Exception as ex:
+                    raised = "%s: %s" % (type(ex).__name__, ex)
+                nart = len(d.ax.patches) + len(d.ax.collections) + len(d.ax.lines)
+                dc.clear(d)
+                if rejected and (raised != "GeometryError" or nart):
+                    run.violation(key, "dimension.rejected", dict(drawing=name, method=meth, object=cls, dimension=dim, raised=raised, artists_added=nart))
+                if not rejected and (raised or not nart):
+                    run.violation(key, "dimension.accepted", dict(drawing=name, method=meth, object=cls, dimension=dim, raised=raised, artists_added=nart))
+        dc.close(d)
 
 
 def own_axes(run):
@@ -267,6 +450,9 @@ def own_axes(run):
 
 
 def run(run, replay=None):
+    import warnings
+    warnings.filterwarnings("ignore")
+    np.seterr(all="ignore")
     quick = run.tier == "quick"
     rng = random.Random(run.seed)
     threshold = lib_threshold()
@@ -284,11 +470,12 @@ def run(run, replay=None):
     path_machine(run)
     rec = Recorder(run, rng)
     if quick:
-        plan = [dict(name="scenes_triangles", B=5, core_=1, maxword=0, maxverts=3),
+        plan = [dict(name="scenes_pairs", B=5, core_=2, maxword=0, maxverts=2),
+                dict(name="scenes_triangles", B=5, core_=1, maxword=0, maxverts=3),
                 dict(name="scenes_sim", B=5, core_=3, maxword=2, maxverts=8, simulate=14, depth=11)]
     else:
         plan = [dict(name="scenes_triangles", B=7, core_=2, maxword=0, maxverts=3),
-                dict(name="scenes_quads", B=5, core_=1, maxword=1, maxverts=2),
+                dict(name="scenes_pairs_words", B=5, core_=1, maxword=1, maxverts=2),
                 dict(name="scenes_sim", B=7, core_=3, maxword=2, maxverts=8, simulate=150, depth=11)]
     nsc = 0
     for p in plan:
@@ -305,9 +492,21 @@ def run(run, replay=None):
         for kd in ("arc", "chord", "line"):
             if not rec.kinds.get((m, kd)):
                 raise core.MachineryFailure("vacuous: no %s edge was drawn in the %s model" % (kd, m))
+    if quick:
+        pplan = [dict(name="proj_sim", BP=2, maxverts=6, simulate=15, depth=7)]
+    else:
+        pplan = [dict(name="proj_triangles", BP=1, maxverts=3), dict(name="proj_sim", BP=3, maxverts=8, simulate=100, depth=9)]
+    dims = None
+    for p in pplan:
+        pscs, dims = proj_scenes(run, **p)
+        replay_proj(run, rec, pscs, rng)
+        run.extra["projective_scenes"] = run.extra.get("projective_scenes", 0) + len(pscs)
+        if pscs:
+            run.sample(dict(kind="projective scene", **pscs[len(pscs) // 2]))
+    wrong_dimension(run, dims)
+    own_axes(run)
     dc.validate_and_report(run, rec.traces, rec.meta, threshold)
     if rec.traces:
         t = rec.traces[len(rec.traces) // 3]
         run.sample(dict(kind="outline trace", **t))
-    own_axes(run)
     dc.plt().close("all")
